@@ -419,6 +419,13 @@ def rule_pu_channel(ctx):
                 ctx.check(any("BOM" in t for t in tests), "PU.CHANNEL", site, fc, a,
                           "the BOM override of the encoding happens only when the file starts with a BOM",
                           "encoding is forced to %r without a BOM test" % a.value.value)
+                # ... and whenever it does: the decision depends on the first bytes of the file only, not on the options
+                tnodes = [cfg.nodes[tn].ast for (tn, lab) in cd.transitive(node.id) if cfg.nodes[tn].kind == "test"]
+                opts = sorted({x.id for t in tnodes for x in ast.walk(t) if isinstance(x, ast.Name) and x.id in fc.params()})
+                ctx.check(not opts, "PU.CHANNEL", site + ":always", fc, a,
+                          "a detected UTF-8 BOM selects utf-8-sig whatever encoding options were passed (the BOM never reaches the text)",
+                          "the BOM override also depends on the option(s) %s: a UTF-8 file with BOM read with an explicit encoding= keeps "
+                          "U+FEFF glued to the first line, so its first section title is not recognised" % opts)
                 continue
             guarded = False
             for (tn, lab) in cd.transitive(node.id):
@@ -454,3 +461,315 @@ def rule_pu_channel(ctx):
                   "the file is opened with encoding=encoding, errors=encoding_errors, universal newlines",
                   "the final open is `%s`: the caller's encoding/errors do not reach it unchanged (or newline translation is off)" % unparse(c))
     ctx.floor("PU.CHANNEL", 4)
+
+
+# ---------------------------------------------------------------------------------------------- PU.TABLE-ALIAS
+
+MUTATING_METHODS = {"append", "extend", "insert", "pop", "remove", "clear", "sort", "reverse", "update", "setdefault", "popitem",
+                    "__setitem__", "__delitem__", "__iadd__"}
+COPYING_CALLS = {"list", "dict", "tuple", "set", "frozenset", "sorted", "copy", "deepcopy", "OrderedDict", "str", "float", "int", "len",
+                 "isinstance", "bool", "repr", "format", "enumerate", "zip", "range", "any", "all", "min", "max", "sum"}
+
+
+def _shared_tables(p):
+    """module-level mutable tables of lasio/defaults.py (dict / list / OrderedDict values)"""
+    mod = p.module("defaults")
+    out = set()
+    for nm, vals in mod.globals.items():
+        for v in vals:
+            if isinstance(v, (ast.Dict, ast.List, ast.Set)) or (isinstance(v, ast.Call) and ast.unparse(v.func).split(".")[-1] in ("OrderedDict", "dict", "list", "defaultdict")):
+                out.add(nm)
+    return out
+
+
+def rule_pu_table_alias(ctx):
+    """no function reachable from LASFile.read mutates an object that may be (part of) a module-level table of
+    lasio/defaults.py.  Flow-insensitive may-alias over local names: a name is shared if one of its definitions is an
+    alias-preserving expression over a table (the table itself, an element, .get()/.values() of it, a conditional
+    expression or tuple containing one, a loop variable ranging over one)."""
+    p = ctx.p
+    r = get_resolver(p)
+    tables = _shared_tables(p)
+    roots = [p.func(LF + ".__init__"), p.func(LF + ".read")]
+    clos = r.closure(roots)
+    n = 0
+    for q, fi in sorted(clos.items()):
+        if isinstance(fi.node, ast.Lambda):
+            continue
+        mod = fi.module
+
+        def is_table_ref(e):
+            if isinstance(e, ast.Attribute) and isinstance(e.value, ast.Name) and e.attr in tables:
+                imp = mod.imports.get(e.value.id)
+                return bool(imp and imp[0] == "module" and imp[1].endswith("defaults"))
+            if isinstance(e, ast.Name) and e.id in tables:
+                imp = mod.imports.get(e.id)
+                return bool((imp and imp[0] == "name" and imp[1].endswith("defaults")) or mod.name == "defaults")
+            return False
+        shared = set()
+
+        def aliases(e):
+            """may e evaluate to (part of) a shared table?"""
+            if is_table_ref(e):
+                return True
+            if isinstance(e, ast.Name):
+                return e.id in shared
+            if isinstance(e, ast.Subscript):
+                return aliases(e.value)
+            if isinstance(e, ast.IfExp):
+                return aliases(e.body) or aliases(e.orelse)
+            if isinstance(e, ast.BoolOp):
+                return any(aliases(v) for v in e.values)
+            if isinstance(e, (ast.Tuple, ast.List)):
+                return any(aliases(v) for v in e.elts)
+            if isinstance(e, ast.Starred):
+                return aliases(e.value)
+            if isinstance(e, ast.Call) and isinstance(e.func, ast.Attribute) and e.func.attr in ("get", "values", "items", "setdefault", "pop"):
+                return aliases(e.func.value)
+            return False
+
+        def bind(t):
+            if isinstance(t, ast.Name):
+                shared.add(t.id)
+            elif isinstance(t, (ast.Tuple, ast.List)):
+                for e in t.elts:
+                    bind(e)
+            elif isinstance(t, ast.Starred):
+                bind(t.value)
+        changed = True
+        rounds = 0
+        while changed and rounds < 10:
+            rounds += 1
+            before = len(shared)
+            for sub in walk_shallow(fi.node):
+                if isinstance(sub, ast.Assign) and aliases(sub.value):
+                    for t in sub.targets:
+                        bind(t)
+                elif isinstance(sub, ast.For) and aliases(sub.iter):
+                    bind(sub.target)
+                elif isinstance(sub, (ast.ListComp, ast.GeneratorExp, ast.SetComp, ast.DictComp)):
+                    for g in sub.generators:
+                        if aliases(g.iter):
+                            bind(g.target)
+            changed = len(shared) != before
+        muts = []
+        for sub in walk_shallow(fi.node):
+            if isinstance(sub, ast.Call) and isinstance(sub.func, ast.Attribute) and sub.func.attr in MUTATING_METHODS and aliases(sub.func.value):
+                if sub.func.attr in ("get",):
+                    continue
+                muts.append((sub, "`%s`" % unparse(sub)))
+            elif isinstance(sub, ast.AugAssign) and aliases(sub.target):
+                muts.append((sub, "`%s` (in-place for lists and dicts)" % unparse(sub)))
+            elif isinstance(sub, (ast.Assign, ast.Delete)):
+                for t in (sub.targets if isinstance(sub, (ast.Assign, ast.Delete)) else []):
+                    if isinstance(t, ast.Subscript) and aliases(t.value):
+                        muts.append((sub, "`%s`" % unparse(sub)))
+        if not shared and not any(is_table_ref(x) for x in ast.walk(fi.node)):
+            continue
+        n += 1
+        site = "%s#defaults-tables" % q
+        if muts:
+            ctx.bad("PU.TABLE-ALIAS", site, fi, muts[0][0], "%s modifies an object that may be (an element of) a module-level table of "
+                    "lasio/defaults.py through %s (names that may alias a table: %s): one read changes the substitutions / orders "
+                    "every later read uses" % (q, muts[0][1], sorted(shared)))
+        else:
+            ctx.ok("PU.TABLE-ALIAS", site, fi, fi.node, "uses tables of lasio/defaults.py (aliases: %s) read-only: no mutating call, "
+                   "augmented assignment or subscript store on a name that may alias one" % (sorted(shared) or "none"))
+    ctx.floor("PU.TABLE-ALIAS", 3)
+
+
+def rule_pu_rewind(ctx):
+    """the section scan numbers lines from where the handle stands, the fast engine from the start of the file (seek(0) +
+    skip_header): read() must hand find_sections_in_file a handle at absolute position 0 - every seek on the handle before
+    the scan is seek(0), and a peek (read/readline) is always followed by one"""
+    from rules.common import read_family, calls_qual
+    p = ctx.p
+    host_fi = None
+    for fi in read_family(p):
+        if calls_qual(p, fi, {"reader.find_sections_in_file"}):
+            host_fi = fi
+            break
+    if host_fi is None:
+        ctx.undecided("PU.REWIND", READ + "#rewind", p.func(READ), p.func(READ).node, "no call of reader.find_sections_in_file found")
+        return
+    fi = host_fi
+    cfg = build_cfg(p, fi)
+    scan = calls_qual(p, fi, {"reader.find_sections_in_file"})[0]
+    if not (scan.args and isinstance(scan.args[0], ast.Name)):
+        ctx.undecided("PU.REWIND", READ + "#rewind", fi, scan, "the scan is not called on a plain name")
+        return
+    hv = scan.args[0].id
+    scan_nodes = cfg.node_of_expr(scan)
+    seeks, peeks = [], []
+    for node in cfg.nodes:
+        if node.ast is None or node.kind not in ("stmt", "test"):
+            continue
+        for c in walk_expr_shallow(node.ast):
+            if isinstance(c, ast.Call) and isinstance(c.func, ast.Attribute) and isinstance(c.func.value, ast.Name) and c.func.value.id == hv:
+                if c.func.attr == "seek":
+                    seeks.append((node.id, c))
+                elif c.func.attr in ("read", "readline", "readlines", "__next__"):
+                    peeks.append((node.id, c))
+    site = READ + "#rewind"
+    problems = []
+    path = None
+    zero = [nid for nid, c in seeks if len(c.args) == 1 and isinstance(c.args[0], ast.Constant) and c.args[0].value == 0 and not c.keywords]
+    for nid, c in seeks:
+        if nid in zero:
+            continue
+        if cfg.find_path(nid, scan_nodes, avoid=zero, skip_labels=EXC):
+            problems.append("`%s` positions the handle before the section scan: the scan's line numbers then count from there while "
+                            "the fast engine skips lines from the start of the file" % unparse(c))
+    for nid, c in peeks:
+        pth = cfg.find_path(nid, scan_nodes, avoid=zero, skip_labels=EXC)
+        if pth:
+            problems.append("after the peek `%s` the section scan can start without a seek(0)" % unparse(c))
+            path = cfg.describe_path(pth[:8])
+    ctx.check(not problems, "PU.REWIND", site, fi, scan, "the section scan always starts at absolute position 0 (%d peek(s), each followed "
+              "by seek(0))" % len(peeks), "; ".join(dict.fromkeys(problems)), path)
+    ctx.floor("PU.REWIND", 1)
+
+
+READ = LF + ".read"
+
+
+# ---------------------------------------------------------------------------------------------- LF.* additions
+
+def rule_no_alias_repeat(ctx):
+    """LF.NO-ALIAS-REPEAT: a slot of the curve list (or of any section) always holds its own item object: no sequence
+    repetition of a display that contains a constructed object (`[CurveItem("")] * n` puts ONE object into n slots), no
+    dict.fromkeys(keys, <object>) in lasio/las.py and lasio/las_items.py"""
+    p = ctx.p
+    n = 0
+    for q, fi in sorted(p.functions.items()):
+        if fi.module.name not in ("las", "las_items") or isinstance(fi.node, ast.Lambda):
+            continue
+        hits = []
+        for sub in walk_shallow(fi.node):
+            if isinstance(sub, ast.BinOp) and isinstance(sub.op, ast.Mult):
+                for side in (sub.left, sub.right):
+                    if isinstance(side, (ast.List, ast.Tuple)) and any(
+                            isinstance(c, ast.Call) and isinstance(c.func, (ast.Name, ast.Attribute))
+                            and (c.func.id if isinstance(c.func, ast.Name) else c.func.attr)[:1].isupper() for e in side.elts for c in ast.walk(e)):
+                        hits.append((sub, "`%s` repeats one constructed object" % unparse(sub)))
+            if isinstance(sub, ast.Call) and isinstance(sub.func, ast.Attribute) and sub.func.attr == "fromkeys" and len(sub.args) == 2 \
+                    and isinstance(sub.args[1], (ast.Call, ast.List, ast.Dict)):
+                hits.append((sub, "`%s` shares one object between all keys" % unparse(sub)))
+            if isinstance(sub, ast.Call) and ast.unparse(sub.func).split(".")[-1] == "repeat" and sub.args and isinstance(sub.args[0], ast.Call) \
+                    and "np" not in ast.unparse(sub.func) and "numpy" not in ast.unparse(sub.func):
+                hits.append((sub, "`%s` repeats one constructed object" % unparse(sub)))
+        if fi.cls is None and fi.parent is None:
+            continue
+        if fi.cls is not None and fi.cls.name in ("LASFile", "SectionItems") and fi.parent is None:
+            n += 1
+            site = "%s#fresh-slots" % q
+            if hits:
+                ctx.bad("LF.NO-ALIAS-REPEAT", site, fi, hits[0][0], "%s: every slot then holds the same item, so naming or filling one "
+                        "changes all of them" % hits[0][1])
+            else:
+                ctx.ok("LF.NO-ALIAS-REPEAT", site, fi, fi.node, "no repetition of a constructed object into several slots",
+                       nontrivial=any(isinstance(c, ast.Call) and isinstance(c.func, ast.Name) and c.func.id in ("CurveItem", "HeaderItem")
+                                      for c in walk_shallow(fi.node)))
+    ctx.floor("LF.NO-ALIAS-REPEAT", 20)
+
+
+def rule_sentinel(ctx):
+    """LF.SENTINEL: `False` is the "argument not given" marker of the curve editors (update_curve(..., unit=False, ...)); the
+    arguments are values ('' and 0 are legitimate), so the only admissible test on them is identity with False"""
+    p = ctx.p
+    cls = p.cls(LF)
+    n = 0
+    for mname, fi in sorted(cls.methods.items()):
+        node = fi.node
+        args = node.args
+        defaults = list(zip([a.arg for a in args.args][len(args.args) - len(args.defaults):], args.defaults))
+        sent = [nm for nm, d in defaults if isinstance(d, ast.Constant) and d.value is False]
+        # keyword arguments fetched with an explicit False default: unit = kwargs.get("unit", False)
+        for sub in walk_shallow(node):
+            if isinstance(sub, ast.Assign) and len(sub.targets) == 1 and isinstance(sub.targets[0], ast.Name) and isinstance(sub.value, ast.Call) \
+                    and isinstance(sub.value.func, ast.Attribute) and sub.value.func.attr in ("get", "pop") and len(sub.value.args) == 2 \
+                    and isinstance(sub.value.args[1], ast.Constant) and sub.value.args[1].value is False:
+                sent.append(sub.targets[0].id)
+        if not sent:
+            continue
+        for nm in sent:
+            # is it stored as a value somewhere (as opposed to a flag that is only tested)?
+            stored = False
+            for sub in walk_shallow(node):
+                if isinstance(sub, ast.Assign) and any(isinstance(x, ast.Name) and x.id == nm for x in ast.walk(sub.value)) \
+                        and any(isinstance(t, (ast.Attribute, ast.Subscript)) for t in sub.targets):
+                    stored = True
+                if isinstance(sub, ast.Call) and any(isinstance(k.value, ast.Name) and k.value.id == nm for k in sub.keywords):
+                    pass
+                if isinstance(sub, (ast.Tuple, ast.List)) and isinstance(getattr(sub, "_parent", None), (ast.Tuple, ast.List)) \
+                        and any(isinstance(e, ast.Name) and e.id == nm for e in sub.elts):
+                    stored = True   # (name, value) rows of a table that is looped over
+            if not stored:
+                continue
+            n += 1
+            site = "%s#sentinel(%s)" % (fi.qual, nm)
+            ident, truthy = [], []
+            for sub in walk_shallow(node):
+                if isinstance(sub, ast.Compare) and isinstance(sub.left, ast.Name) and sub.left.id == nm and len(sub.ops) == 1 \
+                        and isinstance(sub.comparators[0], ast.Constant) and sub.comparators[0].value is False:
+                    (ident if isinstance(sub.ops[0], (ast.Is, ast.IsNot)) else truthy).append(sub)
+                elif isinstance(sub, (ast.If, ast.IfExp, ast.While)):
+                    t = sub.test
+                    conj = t.values if isinstance(t, ast.BoolOp) else [t]
+                    for c in conj:
+                        if isinstance(c, ast.UnaryOp) and isinstance(c.op, ast.Not):
+                            c = c.operand
+                        if isinstance(c, ast.Name) and c.id == nm:
+                            truthy.append(t)
+            if truthy:
+                ctx.bad("LF.SENTINEL", site, fi, truthy[0], "`%s` tests the value argument %s for truthiness / equality: '' and 0 are "
+                        "legitimate new values and would be taken for 'not given'" % (unparse(truthy[0]), nm))
+            elif not ident:
+                ctx.bad("LF.SENTINEL", site, fi, node, "the value argument %s (default False = not given) is never compared with "
+                        "`is False` / `is not False`: the 'not given' case is decided some other way (e.g. truthiness of a copy), so "
+                        "'' or 0 cannot be stored" % nm)
+            else:
+                ctx.ok("LF.SENTINEL", site, fi, ident[0], "%s is stored under `%s` only" % (nm, unparse(ident[0])))
+    if n == 0:
+        ctx.undecided("LF.SENTINEL", LF + "#sentinel", None, cls.node, "no value argument with a `False` = 'not given' default is stored "
+                      "directly into an attribute (the editors keep their updates in another form)")
+    ctx.floor("LF.SENTINEL", 2)
+
+
+def rule_rename_reset(ctx):
+    """SI.RENAME-RESET: assigning item.mnemonic always (i) records the new original mnemonic and (ii) resets the session
+    mnemonic to the bare useful mnemonic - set_data()/assign_duplicate_suffixes rely on (ii) to drop stale ':n' suffixes"""
+    p = ctx.p
+    fi = p.func("las_items.HeaderItem.__setattr__")
+    cfg = build_cfg(p, fi)
+    key = fi.params()[1]
+    site = fi.qual + "#mnemonic-branch"
+    branch = None
+    for node in cfg.nodes:
+        if node.kind == "test" and isinstance(node.ast, ast.Compare) and isinstance(node.ast.left, ast.Name) and node.ast.left.id == key \
+                and isinstance(node.ast.comparators[0], ast.Constant) and node.ast.comparators[0].value == "mnemonic":
+            branch = node
+    if branch is None:
+        ctx.undecided("SI.RENAME-RESET", site, fi, fi.node, "no `key == 'mnemonic'` branch in HeaderItem.__setattr__")
+        return
+    resets = [n.id for n in cfg.nodes if n.ast is not None and n.kind == "stmt" and any(
+        isinstance(c, ast.Call) and isinstance(c.func, ast.Attribute) and c.func.attr == "set_session_mnemonic_only" for c in walk_expr_shallow(n.ast))]
+    origs = [n.id for n in cfg.nodes if n.ast is not None and n.kind == "stmt" and isinstance(n.ast, ast.Assign) and any(
+        isinstance(t, ast.Attribute) and t.attr == "original_mnemonic" for t in n.ast.targets)]
+    starts = [t for (t, lab) in cfg.succ[branch.id] if lab.startswith("true")]
+    problems = []
+    path = None
+    for what, nodes in (("reset the session mnemonic (set_session_mnemonic_only)", resets), ("record original_mnemonic", origs)):
+        if not nodes:
+            problems.append("the mnemonic branch does not %s" % what)
+            continue
+        for st in starts:
+            if st in nodes:
+                continue
+            pth = cfg.find_path(st, [cfg.exit], avoid=nodes, skip_labels=EXC)
+            if pth:
+                problems.append("a rename can leave __setattr__ without having %s" % ("reset the session mnemonic" if "reset" in what else "recorded original_mnemonic"))
+                path = cfg.describe_path(pth[:8])
+    ctx.check(not problems, "SI.RENAME-RESET", site, fi, branch.ast, "every assignment to .mnemonic records original_mnemonic and resets the "
+              "session mnemonic to the useful mnemonic, on every path", "; ".join(dict.fromkeys(problems)), path)
+    ctx.floor("SI.RENAME-RESET", 1)
